@@ -10,7 +10,7 @@ from mc import boundx
 from mc import c06_model as M
 from mc import c06_loader as L
 
-BUDGET = {'quick': 85, 'thorough': 840}
+BUDGET = {'quick': 240, 'thorough': 3000}
 
 # String-hash iteration order cannot reach the code under test: allocations,
 # instances and servers are kept in insertion-ordered dicts
